@@ -2,6 +2,7 @@ package main
 
 import (
 	"go/types"
+	"strings"
 
 	"golang.org/x/tools/go/ssa"
 )
@@ -23,6 +24,95 @@ func (fr *Frame) nativeModel(instr ssa.Instruction, full string, callee *ssa.Fun
 		return scalar(n, rt), true
 	case "(time.Time).UTC", "(time.Time).Local":
 		return &Val{T: args[0].T, Typ: rt}, true
+	case "encoding/json.Marshal":
+		// the encoding of a value is an uninterpreted function of its type and scalar fields; values with a
+		// MarshalJSON method of this repository are encoded by calling it (as encoding/json does)
+		a := args[0]
+		if a.Boxed == nil {
+			c.sc.declareFun("jsonenc_any", []Sort{SV}, SSl)
+			errv := c.freshVal("json_err", types.Universe.Lookup("error").Type())
+			res := tIte(tEq(errv.T, tNull), tApp(SSl, "jsonenc_any", a.T), &Term{"nilsl", SSl})
+			return &Val{Typ: rt, Fs: []*Val{scalar(res, types.NewSlice(types.Typ[types.Byte])), errv}}, true
+		}
+		if m := fr.marshalJSONMethod(a.Boxed); m != nil {
+			recv := a
+			if _, isPtr := a.Boxed.Underlying().(*types.Pointer); isPtr && m.Signature.Recv() != nil {
+				if _, wantPtr := m.Signature.Recv().Type().Underlying().(*types.Pointer); !wantPtr {
+					recv = c.loadObj(st, a.T, a.Boxed.Underlying().(*types.Pointer).Elem())
+				}
+			}
+			return fr.callStatic(instr, m, nil, m.Signature, []*Val{recv}, st, reach, rt), true
+		}
+		anyEnc := func() (*Val, bool) {
+			c.sc.declareFun("jsonenc_any", []Sort{SV}, SSl)
+			errv := c.freshVal("json_err", types.Universe.Lookup("error").Type())
+			res := tIte(tEq(errv.T, tNull), tApp(SSl, "jsonenc_any", a.T), &Term{"nilsl", SSl})
+			return &Val{Typ: rt, Fs: []*Val{scalar(res, types.NewSlice(types.Typ[types.Byte])), errv}}, true
+		}
+		if mt, isMap := a.Boxed.Underlying().(*types.Map); isMap {
+			if mi, err := c.mapInfo(a.Boxed); err == nil {
+				if ls := leavesOf(mt.Elem()); len(ls) == 1 {
+					_, dinner, _ := arrParts(mi.domSort)
+					key, ks := c.mapValKey(a.Boxed, ls[0])
+					_, vinner, _ := arrParts(ks)
+					fn := "jsonenc_map_" + sortName(vinner)
+					c.sc.declareFun(fn, []Sort{dinner, vinner}, SSl)
+					errv := c.freshVal("json_err", types.Universe.Lookup("error").Type())
+					enc := tApp(SSl, fn, tSelect(c.get(st, mi.dom, mi.domSort), a.T), tSelect(c.get(st, key, ks), a.T))
+					res := tIte(tEq(errv.T, tNull), enc, &Term{"nilsl", SSl})
+					return &Val{Typ: rt, Fs: []*Val{scalar(res, types.NewSlice(types.Typ[types.Byte])), errv}}, true
+				}
+			}
+		}
+		pt, isPtr := a.Boxed.Underlying().(*types.Pointer)
+		if !isPtr {
+			return anyEnc()
+		}
+		if _, isStruct := pt.Elem().Underlying().(*types.Struct); !isStruct {
+			return anyEnc()
+		}
+		obj := c.loadObj(st, a.T, pt.Elem())
+		var sorts []Sort
+		var ts []*Term
+		for _, l := range leavesOf(pt.Elem()) {
+			sorts = append(sorts, l.sort)
+			ts = append(ts, obj.at(l.path).T)
+		}
+		fn := smtName("jsonenc_" + typeKey(pt.Elem()))
+		c.sc.declareFun(fn, sorts, SSl)
+		errv := c.freshVal("json_err", types.Universe.Lookup("error").Type())
+		res := tIte(tEq(errv.T, tNull), tApp(SSl, fn, ts...), &Term{"nilsl", SSl})
+		return &Val{Typ: rt, Fs: []*Val{scalar(res, types.NewSlice(types.Typ[types.Byte])), errv}}, true
+	case "encoding/json.NewEncoder":
+		// the encoder remembers its writer (ghost enc_w)
+		e := c.alloc(st, "json_encoder", reach)
+		k := "G:enc_w"
+		cur := c.get(st, k, ArrSort(SV, SV))
+		c.set(st, k, tStore(cur, e, args[0].T))
+		return scalar(e, rt), true
+	case "(*encoding/json.Encoder).Encode":
+		// Encode writes the JSON encoding of the value (plus a newline) to the encoder's writer
+		sub, ok := fr.nativeModel(instr, "encoding/json.Marshal", callee, args[1:], st, reach, types.NewTuple(types.NewVar(0, nil, "", types.NewSlice(types.Typ[types.Byte])), types.NewVar(0, nil, "", types.Universe.Lookup("error").Type())))
+		if !ok {
+			return nil, false
+		}
+		w := tSelect(c.get(st, "G:enc_w", ArrSort(SV, SV)), args[0].T)
+		body := c.get(st, "G:rw_body", ArrSort(SV, SSl))
+		writes := c.get(st, "G:rw_writes", ArrSort(SV, SInt))
+		errT := sub.Fs[1].T
+		c.set(st, "G:rw_body", tIte(tEq(errT, tNull), tStore(body, w, sub.Fs[0].T), body))
+		c.set(st, "G:rw_writes", tIte(tEq(errT, tNull), tStore(writes, w, mk(SInt, "(+ %s 1)", tSelect(writes, w).S)), writes))
+		return scalar(errT, rt), true
+	case "(net/url.Values).Encode":
+		mt := callee.Signature.Recv().Type()
+		return scalar(c.valuesEncode(st, args[0].T, mt), rt), true
+	case "(net/http.Header).Set":
+		mt := callee.Signature.Recv().Type()
+		v := scalar(c.mkSlice(SStr, []*Term{args[2].T}), types.NewSlice(types.Typ[types.String]))
+		if err := c.mapUpdate(st, args[0].T, mt, args[1].T, v); err != nil {
+			return nil, false
+		}
+		return &Val{Typ: rt}, true
 	case "(net/url.Values).Del", "(net/http.Header).Del":
 		mt := callee.Signature.Recv().Type()
 		if err := c.mapDelete(st, args[0].T, mt, args[1].T); err != nil {
@@ -36,7 +126,16 @@ func (fr *Frame) nativeModel(instr ssa.Instruction, full string, callee *ssa.Fun
 			return nil, false
 		}
 		return &Val{Typ: rt}, true
-	case "(net/url.Values).Add":
+	case "(net/http.Header).Get":
+		mt := callee.Signature.Recv().Type()
+		v, ok, err := c.mapLookup(st, args[0].T, mt, args[1].T)
+		if err != nil {
+			return nil, false
+		}
+		at := atFun(c, SStr)
+		first := tApp(SStr, at, v.T, intLit(0))
+		return scalar(tIte(tAnd(ok, mk(SBool, "(> (slen %s) 0)", v.T.S)), first, c.sc.strLit("")), rt), true
+	case "(net/url.Values).Add", "(net/http.Header).Add":
 		mt := callee.Signature.Recv().Type()
 		old, _, err := c.mapLookup(st, args[0].T, mt, args[1].T)
 		if err != nil {
@@ -52,4 +151,29 @@ func (fr *Frame) nativeModel(instr ssa.Instruction, full string, callee *ssa.Fun
 		return &Val{Typ: rt}, true
 	}
 	return nil, false
+}
+
+// marshalJSONMethod returns the repository's MarshalJSON method for values of type t, if any.
+func (fr *Frame) marshalJSONMethod(t types.Type) *ssa.Function {
+	ms := fr.c.V.prog.MethodSets.MethodSet(t)
+	for i := 0; i < ms.Len(); i++ {
+		if ms.At(i).Obj().Name() == "MarshalJSON" {
+			fn := fr.c.V.prog.MethodValue(ms.At(i))
+			if fn != nil && fn.Pkg != nil && strings.HasPrefix(fn.Pkg.Pkg.Path(), repoModule) {
+				return fn
+			}
+		}
+	}
+	return nil
+}
+
+// valuesEncode: the URL encoding of a url.Values map is an uninterpreted function of its contents.
+func (c *Ctx) valuesEncode(st *State, m *Term, mt types.Type) *Term {
+	mi, _ := c.mapInfo(mt)
+	_, dinner, _ := arrParts(mi.domSort)
+	l := leavesOf(mt.Underlying().(*types.Map).Elem())[0]
+	key, ks := c.mapValKey(mt, l)
+	_, vinner, _ := arrParts(ks)
+	c.sc.declareFun("values_encode", []Sort{dinner, vinner}, SStr)
+	return tApp(SStr, "values_encode", tSelect(c.get(st, mi.dom, mi.domSort), m), tSelect(c.get(st, key, ks), m))
 }
